@@ -1,0 +1,126 @@
+//go:build verif
+
+package evaluator
+
+import "evylang.dev/evy/pkg/parser"
+
+// This file is only compiled with the "verif" build tag. It lets an external
+// monitor observe every evaluation step (node entered; node, value and error
+// on exit) without changing what is evaluated.
+
+// VerifObserver receives evaluation steps.
+type VerifObserver struct {
+	Enter func(node parser.Node)
+	Exit  func(node parser.Node, val VerifValue, err error)
+}
+
+type verifState struct {
+	obs  *VerifObserver
+	skip bool
+}
+
+// VerifObserve registers (or with nil removes) the observer.
+func (e *Evaluator) VerifObserve(o *VerifObserver) { e.verif.obs = o }
+
+func (e *Evaluator) verifIntercept(parser.Node) bool {
+	if e.verif.obs == nil {
+		return false
+	}
+	if e.verif.skip {
+		e.verif.skip = false
+		return false
+	}
+	return true
+}
+
+func (e *Evaluator) verifEval(node parser.Node) (value, error) {
+	if e.verif.obs.Enter != nil {
+		e.verif.obs.Enter(node)
+	}
+	e.verif.skip = true
+	val, err := e.eval(node)
+	e.verif.skip = false
+	if e.verif.obs != nil && e.verif.obs.Exit != nil {
+		e.verif.obs.Exit(node, VerifValue{v: val}, err)
+	}
+	return val, err
+}
+
+// VerifValue is a read-only view of an evaluator value.
+type VerifValue struct{ v value }
+
+// Kind is one of nil, num, string, bool, any, array, map, none, return, break.
+func (v VerifValue) Kind() string {
+	switch v.v.(type) {
+	case nil:
+		return "nil"
+	case *numVal:
+		return "num"
+	case *stringVal:
+		return "string"
+	case *boolVal:
+		return "bool"
+	case *anyVal:
+		return "any"
+	case *arrayVal:
+		return "array"
+	case *mapVal:
+		return "map"
+	case *noneVal:
+		return "none"
+	case *returnVal:
+		return "return"
+	case *breakVal:
+		return "break"
+	}
+	return "unknown"
+}
+
+// Num returns the number of a num value.
+func (v VerifValue) Num() float64 { return v.v.(*numVal).V }
+
+// Str returns the string of a string value.
+func (v VerifValue) Str() string { return v.v.(*stringVal).V }
+
+// Bool returns the bool of a bool value.
+func (v VerifValue) Bool() bool { return v.v.(*boolVal).V }
+
+// AnyType returns the dynamic type tag of an any value.
+func (v VerifValue) AnyType() *parser.Type { return v.v.(*anyVal).T }
+
+// Inner returns the payload of an any or return value.
+func (v VerifValue) Inner() VerifValue {
+	switch x := v.v.(type) {
+	case *anyVal:
+		return VerifValue{v: x.V}
+	case *returnVal:
+		return VerifValue{v: x.V}
+	}
+	return VerifValue{}
+}
+
+// Len returns the number of elements of an array or of entries in the hash part of a map.
+func (v VerifValue) Len() int {
+	switch x := v.v.(type) {
+	case *arrayVal:
+		return len(*x.Elements)
+	case *mapVal:
+		return len(x.Pairs)
+	}
+	return 0
+}
+
+// Elem returns element i of an array.
+func (v VerifValue) Elem(i int) VerifValue { return VerifValue{v: (*v.v.(*arrayVal).Elements)[i]} }
+
+// Order returns the key order part of a map.
+func (v VerifValue) Order() []string { return *v.v.(*mapVal).Order }
+
+// Lookup returns the value stored under key in the hash part of a map.
+func (v VerifValue) Lookup(key string) (VerifValue, bool) {
+	x, ok := v.v.(*mapVal).Pairs[key]
+	return VerifValue{v: x}, ok
+}
+
+// Identity returns a pointer identifying the underlying value object.
+func (v VerifValue) Identity() any { return v.v }
